@@ -336,7 +336,7 @@ def args_for(cls, name, recv, k):
         return call(T_("tab%d" % k) if k else "tab0")
     if name == "columns":
         if cls is Q.CreateQueryBuilder:
-            return call(*[["c0"], [("c1", "INT")], [Q.Column("c2", "TEXT", nullable=False, default="d")]][k])
+            return call(*[["c0"], [("c1", "INT")], [Q.Column("c2", "TEXT", nullable=True, default="d")]][k])
         return call(*[["c0"], ["c1", "c2"], [t.c3]][k])
     if name in ("insert", "replace"):
         return call(*[[1, "a"], [(2, "b"), (3, "c")], [None, True]][k])
@@ -363,7 +363,7 @@ def args_for(cls, name, recv, k):
     if name == "period_for":
         return call("p%d" % k, "s%d" % k, "e%d" % k)
     if name in ("unique", "primary_key"):
-        return call(*[["k0"], ["k1", "k2"], [Q.Column("k3")]][k])
+        return call(*[["k0"], ["k1", "k2"], [Q.Column("k3", "INT", nullable=True)]][k])   # a Column OBJECT with every attribute set: the call may not normalise it
     if name == "as_select":
         return call(P.Query.from_(u).select("a"))
     if name == "load":
